@@ -189,11 +189,6 @@ def fsOf (ents : List (PathC × Node)) : Fs := fun q =>
   | some e => some e.2
   | none => none
 
-def followsLast : Syscall → Bool
-  | .openTrunc _ _ | .chmod _ _ => true
-  | .setxattr _ _ _ nf | .utimens _ _ nf | .chown _ _ _ nf => !nf
-  | _ => false
-
 def isUnder (R k : PathC) : Bool := R.isPrefixOf k && k != R
 
 /-- run the model's `step` over an implementation trace; report each call's model result and the key it
@@ -201,12 +196,12 @@ def isUnder (R k : PathC) : Bool := R.isPrefixOf k && k != R
 def monitorGo (R : PathC) : Fs → List Syscall → Bool × List String
   | _, [] => (false, [])
   | fs, sc :: r =>
-    let key := match resolve fs R sc.path (followsLast sc) with
+    let key := match resolve fs R sc.path sc.follows with
       | .ok (k, _) => keyTok k
       | .error _ => "?"
     match step fs R sc with
     | .ok fs' =>
-      let esc := match resolve fs R sc.path (followsLast sc) with
+      let esc := match resolve fs R sc.path sc.follows with
         | .ok (k, _) => !isUnder R k
         | .error _ => false
       let (e, t) := monitorGo R fs' r
